@@ -176,6 +176,8 @@ def show(t, _depth=0):
         return '<caught %s>' % (t[1],)
     if k == 'bot':
         return '_|_'
+    if k == 'unbound':
+        return '<unbound local %s>' % t[1]
     return repr(t)
 
 
@@ -184,7 +186,7 @@ class Ev(object):
     """One effect on a path."""
     __slots__ = ('kind', 'node', 'fi', 'held', 'loops', 'nconds', 'fn',
                  'args', 'kwargs', 'res', 'targets', 'base', 'attr', 'key',
-                 'value', 'ctx', 'paths', 'intry')
+                 'value', 'ctx', 'paths', 'intry', 'pre', 'phis')
 
     def __init__(self, kind, node, fi, st, **kw):
         self.kind = kind
@@ -195,7 +197,7 @@ class Ev(object):
         self.nconds = len(st.conds)
         self.intry = st.try_depth
         for s in ('fn', 'args', 'kwargs', 'res', 'targets', 'base', 'attr',
-                  'key', 'value', 'ctx', 'paths'):
+                  'key', 'value', 'ctx', 'paths', 'pre', 'phis'):
             setattr(self, s, kw.get(s))
 
     def calls(self, fi):
@@ -1356,13 +1358,52 @@ class PathSum(object):
             if note[0] == 'closure' and nm in note[2] and \
                     fi.outer is not None:
                 return note[2][nm]
-        cs = fi.cls
+        if nm in self.locals_of(fi):
+            # a local of this function that no statement on the path has
+            # bound: reading it raises UnboundLocalError
+            return ('unbound', nm)
         try:
             ent = self.db.resolve_dotted(fi.module, ast.Name(
                 id=nm, ctx=ast.Load()), class_scope=None)
         except AnalysisError:
             ent = None
         return self.entity(ent, nm, fi)
+
+    def locals_of(self, fi):
+        cache = self.__dict__.setdefault('_locals', {})
+        if fi not in cache:
+            loc = set()
+            if not isinstance(fi.node, ast.Lambda):
+                glob = set()
+                stack = list(fi.node.body)
+                while stack:
+                    n = stack.pop()
+                    if isinstance(n, (ast.FunctionDef, ast.AsyncFunctionDef,
+                                      ast.ClassDef)):
+                        loc.add(n.name)
+                        continue
+                    if isinstance(n, ast.Lambda):
+                        continue
+                    if isinstance(n, (ast.Global, ast.Nonlocal)):
+                        glob |= set(n.names)
+                    if isinstance(n, ast.Name) and isinstance(
+                            n.ctx, (ast.Store, ast.Del)):
+                        loc.add(n.id)
+                    if isinstance(n, (ast.ListComp, ast.SetComp,
+                                      ast.DictComp, ast.GeneratorExp)):
+                        # comprehension targets live in their own scope
+                        for g in n.generators:
+                            stack.append(g.iter)
+                        continue
+                    if isinstance(n, ast.ExceptHandler) and n.name:
+                        loc.add(n.name)
+                    if isinstance(n, (ast.Import, ast.ImportFrom)):
+                        for a in n.names:
+                            loc.add((a.asname or a.name).split('.')[0])
+                    stack.extend(ast.iter_child_nodes(n))
+                loc -= glob
+            cache[fi] = loc
+        return cache[fi]
 
     def entity(self, ent, nm, fi):
         ent = self.db.deref(ent) if isinstance(ent, tuple) else ent
@@ -2169,7 +2210,9 @@ class PathSum(object):
             elif b.outcome is not None and b.outcome[0] == 'break' and \
                     len(b.outcome) == 1:
                 breaks.append(b)
-        loop_ev = Ev('loop', n, fi, s, ctx=ctx, paths=paths)
+        loop_ev = Ev('loop', n, fi, s, ctx=ctx, paths=paths,
+                     pre={w: s.env.get(w) for w in written if w in s.env},
+                     phis=dict(phis))
         s.events.append(loop_ev)
         for w in sorted(written):
             if w not in keep:
